@@ -69,7 +69,8 @@ PROPS = {
         assumptions=["partial: flips of a continuation bit of the VLQ height are covered by execution only (see Props/C06.lean)",
                      "collisions of sha256d / blake2 / scrypt appear as explicit disjuncts, nothing is assumed of them"]),
     "C09": dict(
-        lean_core=["Props.C13", "Props.C09"], lean_code=[], gen_funcs=[], harness="c09",
+        lean_core=["Props.GenTie.Params", "Props.C13", "Props.C09"], lean_code=["Props.GenTie.HandleBlockRule"],
+        gen_funcs=["handle_block_effects"], harness="c09",
         assumptions=["'outside bulk download' = in_response_to = 0 in the message header",
                      "store modelled as insert-or-ignore by id; the real SQLite store is exercised by the correspondence",
                      "Inv: a node that only ever received unsolicited blocks (served state = last validated, empty write buffer)"]),
